@@ -180,6 +180,11 @@ def merge_and_report(prop, tier, seed, results, inconclusive, wall, replaying=Fa
     }
     if meta.get('exhaustive'):
         coverage['exhaustive'] = bool(extra.get('exhaustive_complete', False)) and not inconclusive
+    units_total = meta.get('exhaustive_total_' + tier)
+    if units_total is not None:
+        # a finite sub-space (named in 'rule') was cut into work units; exhaustive only if every unit was completed
+        coverage['exhaustive'] = (extra.get('exhaustive_units_done') == units_total) and not inconclusive and not replaying
+        coverage['exhaustive_units'] = {'done': extra.get('exhaustive_units_done', 0), 'total': units_total}
     coverage.update({k: v for k, v in extra.items() if k not in ('exhaustive_complete',)})
     evidence = {
         'property_id': prop, 'tier': tier, 'seed': seed, 'level': 'exploration',
